@@ -671,7 +671,7 @@ static Json gen_kern(Rng &r0, const std::string &focus, int tier)
         Json mem = Json::obj();
         mem.set("fill", r.u64() >> 24).set("regs", r.chance(1, 3) ? 0 : r.u64() >> 24).set("skip", r.chance(1, 2) ? 0 : (int) r.below(4096));
         p.set("mem", mem);
-        maybe_swarm_cpu(r, p, 1, 10);
+        maybe_swarm_cpu(r, p, 1, focus == "C05" ? 3 : 10); // C05 quantifies over every variant of every kernel: a third of its kernel sessions run under a simulated CPU
         // caller-ABI seam: now and then an operation's int arguments arrive with garbage in the upper half of their registers.  While
         // finding F15 is open the entry points it lists are passed clean (the list was established for the host's own dispatch, so runs
         // under a simulated CPU carry no garbage either).
